@@ -303,3 +303,33 @@ mod tests {
         assert_eq!(data, expected);
     }
 }
+
+/// Verification hooks: plain forwards to private items, no logic.
+#[cfg(feature = "verif-hooks")]
+pub mod verif_hooks {
+    use super::{Nack, NackBuilderEntryIter, NackParserEntryIter};
+
+    /// The entry iterator of `nack` positioned at word `i`, slot `mask_i`.
+    pub fn entries_at<'a>(nack: &'a Nack<'a>, i: usize, mask_i: usize) -> NackParserEntryIter<'a> {
+        NackParserEntryIter {
+            parser: nack,
+            i,
+            mask_i,
+        }
+    }
+
+    /// The position `(i, mask_i)` of an entry iterator.
+    pub fn state(iter: &NackParserEntryIter<'_>) -> (usize, usize) {
+        (iter.i, iter.mask_i)
+    }
+
+    /// The (PID, BLP) word encoder of `NackBuilder` over an arbitrary sequence iterator.
+    pub fn encode_entries<I: Iterator<Item = u16>>(seq_iter: I) -> impl Iterator<Item = [u8; 4]> {
+        NackBuilderEntryIter {
+            i: 0,
+            base_entry: None,
+            seq_iter,
+            last_entry: 0,
+        }
+    }
+}
